@@ -151,9 +151,11 @@ struct CliWorld : World {
             for (int k = 0; k < ns; ++k) pl.add("sweep", {nm, (int64_t)r.below(6), (int64_t)(r.next() >> 1)});
             return;
         }
+        unsigned hostile_pct = getenv("ASIM_HOSTILE") ? 40 : 4;
         for (int i = 0; i < nops; ++i) {
             unsigned c = (unsigned)r.below(100);
             int64_t nm = names[r.below(names.size())];
+            if (r.below(100) < hostile_pct) { pl.add("hostile", {(int64_t)r.below(10), (int64_t)r.below(40), (int64_t)(r.next() >> 1)}); continue; }
             if (c < 30) {
                 int64_t pw = r.chance(1, 8) ? (int64_t)r.below(10) : r.pickv({0, 1, 2, 3, 4, 7, 8});
                 // flags: bit0 explicit -e, bit1 -o given, bit2 keyfile instead of -p, bit3 stdin/stdout
@@ -211,6 +213,23 @@ struct CliWorld : World {
     }
     static bool vfs_exists(const std::string &n) { return vfs_find(n.c_str()) >= 0; }
 
+    static std::string child_err_path()
+    {
+        static std::string p;
+        static pid_t owner = 0;
+        if (owner != getppid() && owner != getpid()) { owner = getpid(); }
+        if (p.empty()) { const char *d = getenv("ASIM_SCRATCH"); p = std::string(d ? d : "/tmp") + "/asim-child-" + std::to_string((long)getpid()) + ".err"; }
+        return p;
+    }
+    static void dump_child_err()
+    {
+        std::ifstream in(child_err_path());
+        std::string line;
+        int n = 0;
+        while (std::getline(in, line) && n++ < 400) fprintf(stderr, "%s\n", line.c_str());
+        fflush(stderr);
+    }
+
     // Run one tool invocation as a simulated process.
     static Result run_tool(Ctx &c, int tool, const std::vector<std::string> &args, const Op *faultsrc, size_t fault_at,
                            int stdin_file, int rng_fail)
@@ -225,13 +244,16 @@ struct CliWorld : World {
                 if (kind > 0 && kind < FK_NKINDS && sys >= 0 && sys < SYS_NKINDS && ord > 0) simos_add_fault((int)sys, (int)ord, (int)kind, (long)arg);
             }
         g_pbkdf2_rounds = c.rounds;
+        (void)child_err_path();
         fflush(stdout);
         fflush(stderr);
         pid_t pid = fork();
         if (pid < 0) { perror("fork"); _exit(2); }
         if (pid == 0) {
             // the simulated process
-            int efd = __real_open("/dev/null", O_WRONLY);
+            // the simulated process's stderr goes to a scratch file owned by this worker; it is shown only when
+            // the process dies abnormally (sanitizer report, signal)
+            int efd = __real_open(child_err_path().c_str(), O_WRONLY | O_CREAT | O_TRUNC, 0600);
             const char *keep = getenv("ASIM_CHILD_STDERR");
             if (efd >= 0 && !keep) dup2(efd, 2);
             simrng_reset(simrng_cur(), 0xC11C11 ^ (uint64_t)g_os->calls[0], SIMRNG_RANDOM);
@@ -258,12 +280,14 @@ struct CliWorld : World {
             if (r.exit_code == 137 && r.fired[FK_CRASH]) r.crashed = true;
             if (r.exit_code == 77 || r.exit_code == 78) {
                 // sanitizer report inside the simulated process: re-raise it as this worker's death
+                dump_child_err();
                 fprintf(stderr, "simulated process died with sanitizer exit code %d (argv:", r.exit_code);
                 for (auto &s : args) fprintf(stderr, " [%.60s%s]", s.c_str(), s.size() > 60 ? "..." : "");
                 fprintf(stderr, ")\n");
                 _exit(r.exit_code);
             }
         } else if (WIFSIGNALED(st)) {
+            dump_child_err();
             fprintf(stderr, "simulated process killed by signal %d (argv:", WTERMSIG(st));
             for (auto &s : args) fprintf(stderr, " [%.60s%s]", s.c_str(), s.size() > 60 ? "..." : "");
             fprintf(stderr, ")\n");
@@ -351,7 +375,7 @@ struct CliWorld : World {
         bool with_o = flags & 2;
         std::string out = use_stdio ? "-" : with_o ? in + ".enc" + std::to_string(op.arg(0) % 3) : in + ".ascon";
         // auto-detection would pick "decrypt" for names that look encrypted
-        bool looks_encrypted = in.size() < 6 || in.compare(in.size() - 6, 6, ".ascon") == 0;
+        bool looks_encrypted = in.size() >= 6 && in.compare(in.size() - 6, 6, ".ascon") == 0;
         if (!explicit_e && looks_encrypted) explicit_e = true;
         std::vector<std::string> args = {"asconcrypt"};
         if (explicit_e) args.push_back("-e");
@@ -412,13 +436,12 @@ struct CliWorld : World {
         int64_t flags = op.arg(2);
         bool use_stdio = flags & 8;
         bool with_o = (flags & 2) != 0;
-        bool is_enc_name = encname.size() < 6 || encname.compare(encname.size() - 6, 6, ".ascon") == 0;
+        bool is_enc_name = encname.size() >= 6 && encname.compare(encname.size() - 6, 6, ".ascon") == 0;
         bool explicit_d = (flags & 1) || use_stdio || !is_enc_name;
         std::string out;
         if (use_stdio) out = "-";
         else if (with_o) out = encname + ".out";
-        else if (encname.size() >= 6 && is_enc_name) out = encname.substr(0, encname.size() - 6);
-        else if (encname.size() < 6) { with_o = true; out = encname + ".out"; } // documented naming undefined for such names; see C12 for the memory-safety side
+        else if (is_enc_name) out = encname.substr(0, encname.size() - 6);
         else out = encname + ".decrypted";
         std::vector<std::string> args = {"asconcrypt"};
         if (explicit_d) args.push_back("-d");
@@ -567,6 +590,84 @@ struct CliWorld : World {
         }
         restore();
         c.run->cur_op = cur;
+    }
+
+    // Hostile but valid argument vectors and files: only memory safety is judged (C12); results are not.
+    static void do_hostile(Ctx &c, const Op &op)
+    {
+        int kind = (int)(op.u(0) % 10);
+        size_t k = (size_t)(op.u(1) % 40);
+        Rng r(op.u(2));
+        Bytes body = bytes_of(200 + k, op.u(2));
+        std::string pw = "pw";
+        auto put = [&](const std::string &n, const Bytes &b) { vfs_put(n.c_str(), b.data(), b.size()); c.meta.erase(n); };
+        std::vector<std::string> args;
+        int tool = 0;
+        switch (kind) {
+        case 0: { // name shorter than the ".ascon" suffix, default output naming on decrypt
+            std::string n = std::string("abcde").substr(0, 1 + k % 5);
+            put(n, body);
+            args = {"asconcrypt", "-d", "-p", pw, n};
+            break; }
+        case 1: { // auto-detect with a short name (counts as "encrypted")
+            std::string n = std::string("vwxyz").substr(0, 1 + k % 5);
+            put(n, body);
+            args = {"asconcrypt", "-p", pw, n};
+            break; }
+        case 2: { // name of BUFSIZ + 6 + k characters ending in .ascon: strip_suffix at the buffer limit
+            std::string n = std::string(BUFSZ + k - (k % 3 == 0 ? 7 : 0), 'L') + ".ascon";
+            args = {"asconcrypt", "-d", "-p", pw, n};
+            break; }
+        case 3: { // very long plain name, default ".ascon"/".decrypted" suffix
+            std::string n = std::string(BUFSZ - 8 + k, 'M');
+            args = {"asconcrypt", k & 1 ? "-e" : "-d", "-p", pw, n};
+            break; }
+        case 4: args = {"asconcrypt", "-e", "-p", pw, ""}; break;
+        case 5: { // passwords at and beyond the limit, on the command line and in key files of any length
+            std::string big(1020 + k % 12, 'p');
+            put("h.bin", body);
+            if (k & 1) args = {"asconcrypt", "-e", "-p", big, "-o", "h.out", "h.bin"};
+            else {
+                Bytes kf((1000 + 13 * k) * (1 + k % 9), 'k');
+                if (k % 4 == 0 && !kf.empty()) kf[kf.size() / 2] = 0;
+                put("big.key", kf);
+                args = {"asconcrypt", "-e", "-k", "big.key", "-o", "h.out", "h.bin"};
+            }
+            break; }
+        case 6: { // asconsum: long names, many files
+            tool = 1;
+            args = {"asconsum"};
+            for (size_t i = 0; i < 1 + k % 4; ++i) { std::string n = std::string(1000 * (i + 1) + k, 'N'); if (i == 0) put(n, body); args.push_back(n); }
+            break; }
+        case 7: { // asconsum -c with lines at and beyond the line buffer, no trailing newline, junk
+            tool = 1;
+            std::string list;
+            std::string hx = digest_hex(0, body);
+            put("t.bin", body);
+            switch (k % 6) {
+            case 0: list = hx + "  " + std::string(1024 - 66 - 1 + k % 3, 'n') + "\n"; break;
+            case 1: list = hx + "  " + std::string(3000, 'n'); break;
+            case 2: list = std::string(1023 + k % 3, 'a'); break;
+            case 3: list = hx.substr(0, 63) + "\n" + hx + "\n" + hx + " \n" + hx + "  t.bin"; break;
+            case 4: list = std::string(k, '\n') + hx + "  t.bin\r\n\r\n"; break;
+            default: { Bytes junk = bytes_of(600 + k, op.u(2) ^ 9); list.assign(junk.begin(), junk.end()); break; }
+            }
+            put("h.sums", Bytes(list.begin(), list.end()));
+            args = {"asconsum", "-c", "h.sums"};
+            break; }
+        case 8: { // encrypted container cut at every interesting boundary, read through stdin
+            Bytes ct = bytes_of(96 + k, op.u(2));
+            memcpy(ct.data(), "ASCONcrypt\0\1", 12);
+            ct.resize(r.below(ct.size() + 1));
+            put("cut.ascon", ct);
+            args = {"asconcrypt", "-d", "-p", pw, "-o", "cut.out", "cut.ascon"};
+            break; }
+        default: args = {"asconcrypt", "-g", std::string(BUFSZ + k, 'G')}; break;
+        }
+        c.run->fault(fmt("hostile.%d", kind));
+        Result res = run_tool(c, tool, args, nullptr, 0, -1, 0);
+        c.run->fold_u64((uint64_t)res.exit_code);
+        c.run->state(fmt("hostile/%d/%d", kind, res.exit_code != 0));
     }
 
     static std::string digest_hex(int alg, const Bytes &b)
@@ -720,9 +821,11 @@ struct CliWorld : World {
             else if (op.name == "tamper") do_tamper(c, op);
             else if (op.name == "gen") do_gen(c, op);
             else if (op.name == "sweep") do_sweep(c, op);
+            else if (op.name == "hostile") do_hostile(c, op);
             else if (op.name == "sum") do_sum(c, op);
             else if (op.name == "chk") do_chk(c, op);
         }
+        ::remove(child_err_path().c_str());
     }
 };
 
